@@ -2,7 +2,19 @@
 from .scopegen import gen_scope_ops
 from .binstream_gen import gen_bs
 
-THEOREMS = []   # filled below
+THEOREMS = [
+    "BSVerif.Props.C03.get_correct",
+    "BSVerif.Props.C03.history_correct",
+    "BSVerif.Props.C03.close_after_any_history",
+    "BSVerif.Props.C03.fresh_scope_inv",
+    "BSVerif.Props.C03.array_left_partly_read_refuted",
+    "BSVerif.Scope.findLoop_cyclic",
+    "BSVerif.Scope.findValueByKey_spec",
+    "BSVerif.Scope.objGet_spec",
+    "BSVerif.Scope.objClose_spec",
+    "BSVerif.Scope.wfv_arr",
+    "BSVerif.Scope.wfv_map",
+]
 RULE = ("random MsgPack documents (objects with distinct string/int keys; scalar, array and object values, depth <= 3) x request "
         "histories (reverse/shuffled/partial orders, repeated and absent keys, nested open/partial read/close, VisitKeys, sentinel after "
         "the object) x {memory, stream} x policies, on the real read scopes; stream documents shifted across the 256-byte cache "
